@@ -103,7 +103,7 @@ def region_id(r):
     if r["kind"] == "tpl":
         return "spec:" + r["clause"]
     base = r["item"]
-    if r["kind"] in ("clause", "loop-clause"):
+    if r["kind"] in ("clause", "loop-clause", "ghost-clause"):
         return "%s#%s" % (base, r["clause"] or r["kind"])
     return "%s#%s" % (base, r["kind"])
 
@@ -183,7 +183,7 @@ def classify(diags, mp, unit_name=""):
         for s2 in spans:
             r2 = region_of(mp, s2["line_start"])
             # a clause that lives in a trait declaration also carries the tags of the implementing function
-            if r2 is not None and r is not None and r2.get("kind") in ("fn-body", "loop-clause") and r2.get("item") != r.get("item") and r.get("item", "").startswith("trait"):
+            if r2 is not None and r is not None and r2.get("kind") in ("fn-body", "loop-clause", "ghost-clause") and r2.get("item") != r.get("item") and r.get("item", "").startswith("trait"):
                 impl_props = (impl_props or set()) | set(r2["props"])
         if impl_props is not None:
             if UNITS.get(unit_name, {}).get("attribute_to_impl"):
